@@ -26,16 +26,19 @@ impl<const PAD: usize> Tr<PAD> {
         Tr { id, pad }
     }
     fn pad_ok(&self) -> bool {
-        self.pad.iter().enumerate().all(|(j, &p)| p == pat(self.id, j))
+        self.pad.iter().enumerate().all(|(j, &p)| p == pat(self.id & 0x7FFF_FFFF, j))
     }
     /// Observe the element: returns its id and records an after-drop observation if stale.
     pub fn id(&self) -> u32 {
-        ledger::note_observe(self.id, self.pad_ok());
-        self.id
+        // (a slot read after its element was dropped in place carries the destructor's tombstone bit; the ledger books the
+        // observation to the original identity, which is by then recorded as dropped)
+        let id = self.id & 0x7FFF_FFFF;
+        ledger::note_observe(id, self.pad_ok());
+        id
     }
     /// Read the id without recording an observation (for the harness's own bookkeeping only).
     pub fn peek(&self) -> u32 {
-        self.id
+        self.id & 0x7FFF_FFFF
     }
 }
 
@@ -52,7 +55,13 @@ impl<const PAD: usize> Drop for Tr<PAD> {
         if !self.pad_ok() {
             ledger::with(|l| l.garbage += 1);
         }
-        if ledger::note_drop(self.id) {
+        // (a second drop of the same slot finds the tombstone: it is still accounted to the original identity)
+        let id = self.id & 0x7FFF_FFFF;
+        // The destructor WRITES to its own storage (a tombstone): a destructor run through a pointer that was derived from a
+        // shared reference is then a write through read-only provenance (visible to Miri), and a slot read again after its
+        // element was dropped in place no longer shows a live-looking identity.
+        self.id = id | 0x8000_0000;
+        if ledger::note_drop(id) {
             std::panic::panic_any(Injected("drop"));
         }
     }
@@ -64,7 +73,7 @@ impl<const PAD: usize> Clone for Tr<PAD> {
         if ledger::note_clone() {
             std::panic::panic_any(Injected("clone"));
         }
-        let id = ledger::new_id_from(self.id);
+        let id = ledger::new_id_from(self.id & 0x7FFF_FFFF);
         let mut pad = [0u32; PAD];
         for (j, p) in pad.iter_mut().enumerate() {
             *p = pat(id, j);
